@@ -73,11 +73,37 @@ def cli_part(ctx, out):
                                            shape='c09:cli-cycle-%s' % name, case=dict(dodo=src, args=par, output=txt[-600:])))
 
 
+BASEEXC = ("class Fatal(BaseException):\n    pass\n"
+           "def boom():\n    raise KIND\n"
+           "def task_a():\n    return {'actions': [boom]}\n"
+           "def task_b():\n    return {'actions': ['echo RAN-b']}\n")
+
+
+def termination_part(ctx, out):
+    """every run terminates under every runner, also when an action raises something that is not an Exception"""
+    for kind in ("Fatal('fatal')", 'GeneratorExit()', 'SystemExit(7)', 'KeyboardInterrupt()'):
+        for par in ([], ['-n', '2', '-P', 'thread'], ['-n', '2']):
+            d = tempfile.mkdtemp(prefix='c09t_', dir=ctx.tmp)
+            src = BASEEXC.replace('KIND', kind)
+            open(os.path.join(d, 'dodo.py'), 'w').write(src)
+            try:
+                p = subprocess.run([sys.executable, '-m', 'doit', 'run', '--continue'] + par, cwd=d, env=common.impl_env(), capture_output=True, text=True, timeout=60)
+                rc = p.returncode
+            except subprocess.TimeoutExpired:
+                rc = 98
+            out.count('cli-term:%s:rc%s' % (kind.split('(')[0], rc))
+            out.evaluations += 1
+            if rc == 98:
+                out.violations.append(dict(what='run never terminated: an action raised %s under runner args %s' % (kind, par),
+                                           shape='c09:cli-hang-baseexception', case=dict(dodo=src, args=par)))
+
+
 def run(ctx):
     extra = digraph_cases(ctx.tier == 'thorough')
     out = runfam.run_property(ctx, 'C09', n_quick=300, n_thorough=4000, extra_cases=extra)
     out.extra['exhaustive_3_task_digraph_cases'] = len(extra)
     cli_part(ctx, out)
+    termination_part(ctx, out)
     out.rule += ('; plus every 3-task digraph (task_dep only in quick; task_dep/setup per edge in thorough) x selections x {serial, thread}; '
                  'plus cyclic dodo modules through `python -m doit` (exit 3, nothing executed)')
     return out
